@@ -1,5 +1,6 @@
 import PrefVerif.Driver.Util
 import PrefVerif.Model.KAltDeletion
+import PrefVerif.Model.KAltPartitionBF
 open Lean PrefVerif PrefVerif.Driver
 
 namespace PrefVerif.Driver.KAltD
@@ -17,6 +18,20 @@ def partition : Handler := fun j => do
   let alts ← arg (α := List Nat) j "alts"
   let orders ← arg (α := List (List Nat)) j "orders"
   return obj [("axes", toJson (kAltPartitionApprox alts orders))]
+
+/-- `k_alternative_partition_brut_force(instance, k)`: `null` or the list of axes -/
+def bruteForce : Handler := fun j => do
+  let alts ← arg (α := List Nat) j "alts"
+  let orders ← arg (α := List (List Nat)) j "orders"
+  let k ← arg (α := Nat) j "k"
+  return obj [("axes", match PrefVerif.KAltBF.partitionBruteForce alts orders k with
+    | some axes => toJson axes
+    | none => Json.null)]
+
+/-- `singleton_pair_combinations(items)` (tuples as lists) -/
+def spc : Handler := fun j => do
+  let items ← arg (α := List Nat) j "items"
+  return obj [("combis", toJson (PrefVerif.KAltBF.singletonPairCombinations items))]
 
 /-- iteration orders of the modelled CPython sets (used to validate the layout model on its own):
 `ints` are added one by one; `copyUpdate` are merged into a copy; `pairs` are added as frozensets -/
